@@ -21,6 +21,7 @@ import Gama.Lemmas.RCMPerm
 import Gama.Lemmas.EnvelopeProfile
 import Gama.Lemmas.EnvelopeLDL
 import Gama.Lemmas.CovBdField
+import Gama.Lemmas.CovBdBuild
 namespace Gama.Props.C16
 open Gama
 
@@ -385,6 +386,46 @@ theorem C16_bd_choldec_walk {K : Type} [Scalar K] (tol : K) (bd : BlockDiag K) (
     List.Forall₂ Same Cs (bdCholDec tol Cs).2 :=
   BlockDiag.cholDec_blockwise tol bd Cs tail h hwf
 
+/-- `BlockDiagonal(blcks, floats)`, `add_block`, `replicate()` build exactly the object the theorems
+    above speak about: the empty object holds no block; a defined `add_block(d, w, mem)` (a table cell
+    and `N = d(w+1) − w(w+1)/2` floats are left, `mem` has `N` elements) appends the block made of the
+    first `N` elements of `mem` after the blocks already stored — tables `dim_`, `width_`, `begin_`
+    (running sums of the `N`s), counters `ncnt_`, `size_` — and leaves everything stored before
+    untouched; `replicate()` yields an object holding the same blocks with no spare floats (every
+    `add_block` it issues is defined).  `Built` contains `Holds`. -/
+theorem C16_bd_build {K : Type} (z : K) :
+    (∀ blcks floats, (BlockDiag.init z blcks floats).Built [] (List.replicate floats z)) ∧
+    (∀ (bd : BlockDiag K) Cs tail d w mem, bd.Built Cs tail → bd.canAddBlock d w mem = true →
+      (bd.addBlock z d w mem).Built (Cs ++ [⟨d, w, mem.extract 0 (BlockDiag.blockFloats d w)⟩])
+        (tail.drop (BlockDiag.blockFloats d w)) ∧
+      (w ≤ d → (⟨d, w, mem.extract 0 (BlockDiag.blockFloats d w)⟩ : CovMat K).WF)) ∧
+    (∀ (bd : BlockDiag K) Cs tail, bd.Built Cs tail → (∀ C ∈ Cs, C.WF) →
+      (bd.replicate z).Built Cs [] ∧ (bd.replicate z).Holds Cs []) :=
+  ⟨fun blcks floats => BlockDiag.built_init z blcks floats,
+   fun _ _ _ d w mem h hc => ⟨BlockDiag.built_addBlock z d w mem h hc,
+     fun hw => BlockDiag.addBlock_block_WF d w mem hc hw⟩,
+   fun _ _ _ h hwf => ⟨BlockDiag.built_replicate z h hwf, (BlockDiag.built_replicate z h hwf).holds⟩⟩
+
+/-- the row table of `UpperBlockDiagonal` (constructor loop as coded, including the cell that is
+    written twice at every block boundary): row `i` of block `k` begins at the packed row start of
+    that block inside the whole buffer and ends `min(width+1, dim−i+1)` elements later — for every
+    number of blocks, dims and widths. -/
+theorem C16_bd_upper_table {K : Type} (bd : BlockDiag K) (Cs : List (CovMat K)) (tail : List K)
+    (h : bd.Holds Cs tail) (hwf : ∀ C ∈ Cs, C.WF) (hs : bd.size = (Cs.map (·.dim)).sum) :
+    TabOK bd.upperTable Cs :=
+  upperTable_ok bd Cs tail h hwf hs
+
+/-- non-vacuity: `BlockDiagonal(2, 9)` + `add_block(2,1,…)` + `add_block(3,2,…)` is `Built`, so is its
+    `replicate()`, and its row table is `0 2 | 2 3 | 3 6 | 6 8 | 8 9` -/
+example : bbExBd.Built bbExCs [] ∧ (∀ C ∈ bbExCs, C.WF) ∧ bbExBd.upperTable = #[0, 0, 2, 3, 6, 8, 9] := by
+  have h0 := BlockDiag.built_init (0 : Nat) 2 9
+  have h1 := BlockDiag.built_addBlock 0 2 1 #[4, 2, 5] h0 (by decide)
+  have h2 := BlockDiag.built_addBlock 0 3 2 #[4, 0, 2, 9, 3, 10] h1 (by decide)
+  refine ⟨h2, ?_, by decide⟩
+  intro C hC
+  simp only [bbExCs, List.mem_cons, List.mem_nil_iff, or_false] at hC
+  rcases hC with rfl | rfl <;> exact ⟨by decide, by decide⟩
+
 variable {K : Type} [Field K] [LinearOrder K] [IsStrictOrderedRing K] [SqrtFn K]
 
 /-- **`BlockDiagonal::cholDec` factors every block exactly as the dense banded Cholesky of that block.**
@@ -442,7 +483,7 @@ example : exBd.Holds exCs [] ∧ (∀ C ∈ exCs, C.WF) ∧
     (∀ x : ℝ, 0 < x → Real.sqrt x * Real.sqrt x = x ∧ 0 < Real.sqrt x) ∧
     (letI := Cov.fieldScalar ℝ Real.sqrt; (exBd.cholDec (1 / 100 : ℝ)).1 = 0) ∧
     (letI := Cov.fieldScalar ℝ Real.sqrt; (exBd.cholDec (5 : ℝ)).1 = 2) :=
-  ⟨exBd_holds, exCs_wf, fun x hx => ⟨Real.mul_self_sqrt hx.le, Real.sqrt_pos.mpr hx⟩,
+  ⟨exBd_holds, exCs_wf, fun _ hx => ⟨Real.mul_self_sqrt hx.le, Real.sqrt_pos.mpr hx⟩,
    exBd_accepts, exBd_rejects⟩
 
 end blockdiag
